@@ -862,8 +862,10 @@ def cases(rng, tier):
             if rng.random() < 0.25 and (sd is None or (sd and not sd.startswith("/") and "//" not in sd
                                                       and not sd.startswith(".") and ".." not in sd)):
                 via = "cmd"
-            if via == "cmd" and sd is not None and any(e[0] == sd.rstrip("/") and e[1] == "l" for e in tree):
-                via = "api"      # the command resolves its location argument through the file system (follows the link)
+            if via == "cmd" and sd is not None and not any(e[0] == sd.rstrip("/") and e[1] != "l" for e in tree):
+                # the command resolves its location argument through the file system (follows links, ENAMETOOLONG
+                # for over-long missing names): only existing files / directories are given to it
+                via = "api"
             inp = _mk(tree, f2, dest, root, sd, pft, filtered, via)
             if _effective_format(inp) == "dir" and rng.random() < 0.15:
                 inp["pre"] = rng.choice(["empty", "nonempty"])
